@@ -154,9 +154,19 @@ func (info RecipientInfo) WriteTo(utf8 bool, w io.Writer) error {
 	if smtpErr, ok := info.DiagnosticCode.(*smtp.SMTPError); ok {
 		// Error message may contain newlines if it is received from another SMTP server.
 		// But we cannot directly insert CR/LF into Disagnostic-Code so rewrite it.
+		msg := strings.ReplaceAll(strings.ReplaceAll(smtpErr.Message, "\n", " "), "\r", " ")
+		if !utf8 {
+			// message/delivery-status is limited to US-ASCII (RFC 3464 Section 2.1),
+			// only message/global-delivery-status may carry UTF-8.
+			msg = strings.Map(func(ch rune) rune {
+				if ch >= 0x80 {
+					return '?'
+				}
+				return ch
+			}, msg)
+		}
 		h.Add("Diagnostic-Code", fmt.Sprintf("smtp; %d %d.%d.%d %s",
-			smtpErr.Code, smtpErr.EnhancedCode[0], smtpErr.EnhancedCode[1], smtpErr.EnhancedCode[2],
-			strings.ReplaceAll(strings.ReplaceAll(smtpErr.Message, "\n", " "), "\r", " ")))
+			smtpErr.Code, smtpErr.EnhancedCode[0], smtpErr.EnhancedCode[1], smtpErr.EnhancedCode[2], msg))
 	} else if utf8 {
 		// It might contain Unicode, so don't include it if we are not allowed to.
 		// ... I didn't bother implementing mangling logic to remove Unicode
